@@ -1095,6 +1095,8 @@ def check(run):
     uncovered = [("class", n) for n in sorted(declared - {c.__name__ for c in classes})]
     for c in classes:
         ex, gaps = S.coverage_gaps(c)
+        if not ex["literals"] and not ex["families"] and c.__name__ != "BasisDummy":
+            run.crash(f"C16: no symbol could be read from the source of {c.__name__}.op_mat (vacuous coverage; has the dispatch moved?)")
         cov[c.__name__] = {"literals": sorted(ex["literals"]), "families": sorted(map(list, ex["families"])), "aliases": sorted(map(list, ex["aliases"]))}
         uncovered += [(c.__name__,) + tuple(g) for g in gaps]
     run.extra["symbols_from_source"] = cov
